@@ -939,7 +939,7 @@ func c19Listing(r *Run) {
 		return
 	}
 	n := 0
-	for _, fn := range p.withHelpers(od, 1) {
+	for _, fn := range p.withHelpers(od, 2) {
 		if fn != od && fn.Name() != "dirFromEntry" && !strings.Contains(strings.ToLower(fn.Name()), "list") && !strings.Contains(strings.ToLower(fn.Name()), "entr") {
 			continue // fullPath, IsDir, … : not part of building the listing
 		}
